@@ -10,27 +10,27 @@ Definition cminor (c : cand) : nat := fst (fst c).
 Definition cfree (c : cand) : res := snd (fst c).
 
 (* ------------------------------------------------------------------ candidates *)
-Lemma cand_ge t sc req v i fr c : In c (candidates t sc req v i fr) -> (i <= cminor c)%nat.
+Lemma cand_ge mo t sc req v i fr c : In c (candidates mo t sc req v i fr) -> (i <= cminor c)%nat.
 Proof.
   revert i. induction fr as [|[f|] fr IH]; intros i H; cbn [candidates] in H.
   - destruct H.
   - destruct H as [<-|H]; [cbn; lia|]. apply IH in H. lia.
   - apply IH in H. lia.
 Qed.
-Lemma cand_entry t sc req v i fr c : In c (candidates t sc req v i fr) ->
+Lemma cand_entry mo t sc req v i fr c : In c (candidates mo t sc req v i fr) ->
   nth (cminor c - i) fr None = Some (cfree c).
 Proof.
   revert i. induction fr as [|[f|] fr IH]; intros i H; cbn [candidates] in H.
   - destruct H.
   - destruct H as [<-|H].
     + unfold cminor, cfree. cbn. now rewrite Nat.sub_diag.
-    + pose proof (cand_ge _ _ _ _ _ _ _ H) as G. apply IH in H.
+    + pose proof (cand_ge _ _ _ _ _ _ _ _ H) as G. apply IH in H.
       replace (cminor c - i)%nat with (S (cminor c - S i)) by lia. exact H.
-  - pose proof (cand_ge _ _ _ _ _ _ _ H) as G. apply IH in H.
+  - pose proof (cand_ge _ _ _ _ _ _ _ _ H) as G. apply IH in H.
     replace (cminor c - i)%nat with (S (cminor c - S i)) by lia. exact H.
 Qed.
-Lemma cand_exists t sc req v i fr j f : nth j fr None = Some f ->
-  exists s, In ((i + j)%nat, f, s) (candidates t sc req v i fr).
+Lemma cand_exists mo t sc req v i fr j f : nth j fr None = Some f ->
+  exists s, In ((i + j)%nat, f, s) (candidates mo t sc req v i fr).
 Proof.
   revert i j. induction fr as [|[g|] fr IH]; intros i j H.
   - rewrite nthnil in H. discriminate.
@@ -42,7 +42,7 @@ Proof.
     destruct (IH (S i) j H) as [s Hs]. exists s.
     replace (i + S j)%nat with (S i + j)%nat by lia. exact Hs.
 Qed.
-Lemma cand_nodup t sc req v i fr : NoDup (map cminor (candidates t sc req v i fr)).
+Lemma cand_nodup mo t sc req v i fr : NoDup (map cminor (candidates mo t sc req v i fr)).
 Proof.
   revert i. induction fr as [|[f|] fr IH]; intros i; cbn [candidates map].
   - constructor.
@@ -62,13 +62,13 @@ Proof. intros H. rewrite <- (firstn_skipn n l). apply in_or_app. now left. Qed.
 Definition view_ok (v : ledger) (req : res) (m : nat) : Prop :=
   exists f, dget (free v) m = Some f /\ ris_zero f = false /\ rle req f = true.
 
-Lemma default_allocate_sound t sc v req d al :
-  default_allocate t sc v req d d = Some al ->
+Lemma default_allocate_sound mo t sc v req d al :
+  default_allocate mo t sc v req d d = Some al ->
   length al = d /\ NoDup (map fst al) /\
   forall a, In a al -> snd a = req /\ view_ok v req (fst a).
 Proof.
   unfold default_allocate.
-  set (cs := sort_by cand_leb (filter (eligible req) (candidates t sc req v 0 (free v)))).
+  set (cs := sort_by cand_leb (filter (eligible req) (candidates mo t sc req v 0 (free v)))).
   destruct (Nat.ltb (length (firstn d cs)) d) eqn:L; [discriminate|].
   intros H. injection H as <-. apply Nat.ltb_ge in L.
   split; [|split].
@@ -83,19 +83,19 @@ Proof.
     exists (cfree c). unfold dget. auto.
 Qed.
 
-Lemma default_allocate_complete t sc v req d (L : list nat) :
-  default_allocate t sc v req d d = None ->
+Lemma default_allocate_complete mo t sc v req d (L : list nat) :
+  default_allocate mo t sc v req d d = None ->
   NoDup L -> (forall m, In m L -> view_ok v req m) -> (length L < d)%nat.
 Proof.
   unfold default_allocate.
-  set (el := filter (eligible req) (candidates t sc req v 0 (free v))).
+  set (el := filter (eligible req) (candidates mo t sc req v 0 (free v))).
   destruct (Nat.ltb (length (firstn d (sort_by cand_leb el))) d) eqn:Lt; [|discriminate].
   intros _ ND HL. apply Nat.ltb_lt in Lt.
   assert (Hlen : (length el < d)%nat).
   { rewrite firstn_length, sort_by_length in Lt. lia. }
   assert (Hincl : incl L (map cminor el)).
   { intros m Hm. destruct (HL m Hm) as [f [Ef [Z R]]].
-    destruct (cand_exists t sc req v 0 (free v) m f Ef) as [s Hs]. cbn [Nat.add] in Hs.
+    destruct (cand_exists mo t sc req v 0 (free v) m f Ef) as [s Hs]. cbn [Nat.add] in Hs.
     apply in_map_iff. exists (m, f, s). split; auto. unfold el. apply filter_In. split; auto.
     unfold eligible. cbn [fst snd]. now rewrite Z, R. }
   pose proof (NoDup_incl_length ND Hincl) as H. rewrite map_length in H. lia.
